@@ -9,9 +9,10 @@ import Mfi.Driver.AuthD
 import Mfi.Driver.AdminD
 import Mfi.Driver.AccountD
 import Mfi.Driver.TxD
+import Mfi.Driver.RiskD
 open Mfi.Driver
 
-def handlers : List (String → List Int → Option String) := [fxOp, panicOp, irOp, igOp, bankOp, tokOp, gateOp, authOp, adminOp, acctOp, txOp]
+def handlers : List (String → List Int → Option String) := [fxOp, panicOp, irOp, igOp, bankOp, tokOp, gateOp, authOp, adminOp, acctOp, txOp, riskOp]
 
 def stepLine (line : String) : String :=
   match line.trimAscii.toString.splitOn " " with
